@@ -3,7 +3,7 @@ PROP = dict(
     parts=[
         # Part A: custom python runner (fw/c06_abi.py) + helper binary build/bin/c06_abi; replay files are *.sig (one signature)
         dict(name="abi-classification", harness="c06_abi", runner="custom", module="c06_abi", make=["build/bin/c06_abi"], replay_match=r"\.sig$",
-             quick=dict(sigs_per_abi=120, light_sigs=100), thorough=dict(sigs_per_abi=1500, light_sigs=600)),
+             quick=dict(sigs_per_abi=120, va_sigs_per_abi=80, light_sigs=100), thorough=dict(sigs_per_abi=1500, va_sigs_per_abi=1000, light_sigs=600)),
         # Part B: rapidcheck harness props/c06.cpp (host execution through hostexec/msc)
         dict(name="args-assignment", harness="c06", replay_match=r"\.case$",
              quick=dict(cases=320000, max_size=60, workers=16), thorough=dict(cases=10000000, max_size=80, workers=16, timeout=7200)),
@@ -15,7 +15,16 @@ PROP = dict(
           "entry sp with prologue adjustments and frame-pointer realignment tracked, pointer dereferences for by-reference arguments, `ret N`) yields the "
           "reference location; FuncDetail must agree on register/stack/indirect class, register, stack offset, size of the stack-argument area, who pops, "
           "return register(s); once per ABI the callee-saved set (clobber-everything probe) and the red zone (leaf functions with 8..300-byte arrays) are "
-          "compared with CallConv. light-call 2/3/4 (x86-64 and x86-32): internal consistency only. A signature is non-trivial when it has >= 1 stack "
+          "compared with CallConv. Variadic signatures (15 % of the general ones plus a dedicated generator: named arguments that exhaust one or both register "
+          "classes and leave a named stack area of char/short/int/float granularity, i.e. ending at offsets that are not multiples of 8 where the ABI packs, "
+          "followed by 1-7 unnamed arguments int/long/pointer/double/64- and 128-bit vectors after the C default promotions) on {SysV x86-64 (+kCDecl, +sysv_abi on "
+          "Windows), Win64 (+ms_abi on Linux), x86-32 cdecl, AAPCS64, Apple arm64}: EVERY unnamed argument is located (a) by a caller-side clang probe (a call "
+          "`f(vs_0, vs_1, ...)` whose arguments are distinct globals; a forward data-flow pass over the caller finds the argument register or the outgoing "
+          "stack slot relative to sp at the call instruction that holds each global, by-reference copies included), (b) on Apple arm64 also by a callee-side "
+          "probe that walks the va_list with va_arg for the whole unnamed type sequence, (c) by the written ABI rule (Apple: always on the stack, own 8-byte "
+          "aligned 8-byte slot, 16 bytes/16-aligned for 16-byte types; AAPCS64/SysV: allocated like named ones; Win64: positional, floats duplicated in GP; "
+          "i386: 4-byte slots, 16-byte vectors 16-aligned); FuncDetail must agree with each reference on class, register and offset, and arg_stack_size() with "
+          "the end of clang's layout. light-call 2/3/4 (x86-64 and x86-32): internal consistency only. A signature is non-trivial when it has >= 1 stack "
           "argument or > 4 arguments. Part B: rapidcheck cases = calling convention {SysV64, Win64, vectorcall64, light-call2/3/4 executed; x86-32 and "
           "AArch64 built only} x frame options (preserved FP, AVX/AVX-512, all-dirty masks, local alignment 16/32/64 = dynamic alignment, explicit SA register) "
           "x up to 32 arguments, each with a destination: register of its group (candidates list starts with the registers that carry arguments, so "
@@ -31,8 +40,13 @@ PROP = dict(
         "64-bit integers are not generated for x86-32 fastcall/thiscall/vectorcall (clang and MSVC disagree), 256/512-bit vectors not for variadic SysV functions "
         "(LLVM passes even named ones in memory, gcc does not)",
         "probes that the assembly pass cannot interpret are skipped and counted (A:probe-unparsed), never judged",
-        "variadic functions: only the named arguments are located by clang (unnamed ones follow the same rules on SysV/Win64/AAPCS64; FuncDetail exposes nothing about AL or the "
-        "Win64 GP/XMM duplication, which x86rapass.cpp implements); Apple arm64 additionally probes the first unnamed argument through va_arg",
+        "variadic functions: unnamed arguments carry the promoted type in the signature given to AsmJit (int for char/short, double for float, as a C caller passes them); "
+        "only 16-byte vectors (and 8-byte ones on AArch64) are generated as unnamed vector arguments; FuncDetail exposes nothing about AL or the Win64 GP/XMM duplication "
+        "(x86rapass.cpp implements them): for a Win64 unnamed double in the first four positions AsmJit's register must be one of the two clang loads",
+        "caller-side probes are trusted only when they place every NAMED argument where the callee-side probes read it; clang 14 fails that test on Apple arm64 when a named "
+        "stack argument is a char/short (its caller widens those to 4-byte slots in variadic calls while its own callee reads them packed - an LLVM defect, counted as "
+        "A:variadic-caller-probe-inconsistent): there the va_arg walk (callee side) and the ABI rule judge alone. References that disagree among themselves are never "
+        "used against AsmJit (A:variadic-references-disagree, reported as a note)",
         "AArch64 x18 (platform register) is ignored when comparing preserved sets: AsmJit lists it as preserved on every OS and its register allocator never hands it out; "
         "the stack pointer is ignored in both sets",
         "red zone: the number compared is what clang-compiled leaf functions actually address below sp (128 on SysV x86-64, 0 elsewhere incl. Apple arm64, whose ABI would "
@@ -53,7 +67,7 @@ META = dict(
     engine="clang-differential (python driver) + rapidcheck with host execution",
     technique=("part A: differential testing of FuncDetail/CallConv against clang-compiled probe functions for five target triples (data-flow analysis of the probe assembly); "
                "part B: property-based testing of FuncArgsAssignment/emit_args_assignment with the host CPU as oracle (machine_state_call trampoline)"),
-    level_text=("Exploration: ~800 (quick) / ~20k (thorough) generated signatures across 16 ABI variants are compared location by location with what clang does, plus the "
+    level_text=("Exploration: ~2.2k (quick) / ~26k (thorough) generated signatures across 16 ABI variants are compared location by location with what clang does, plus the "
                 "callee-saved sets and red zones of every ABI; 24k (quick) / 480k (thorough) generated argument assignments are executed (x86-64) or built (x86-32, AArch64) "
                 "and every destination is compared with its argument. Absence of failures in the explored signatures/assignments is not a proof. Twenty-odd finding classes "
                 "are tracked as known findings; the generators route around them, so the layouts behind those defects are explored only where they do not interfere."),
